@@ -8,13 +8,27 @@ pub fn check_case(ctx: &mut Ctx, ps: &mut Parsers, case: &Case) {
     ctx.begin(case);
     let input = case.input.as_str();
     let parser = ps.parser(case.ext, &case.conv).clone();
-    let Ok(full) = crate::core::guarded(|| parser.parse(input)) else {
-        ctx.count("panic_in_parse(C03)");
-        return;
-    };
-    let Ok(meta) = crate::core::guarded(|| parser.parse_metadata(input)) else {
-        ctx.count("panic_in_parse_metadata(C03)");
-        return;
+    let full = crate::core::guarded(|| parser.parse(input));
+    let meta = crate::core::guarded(|| parser.parse_metadata(input));
+    // one of the two readers panics where the other returns: they do not agree on this input (both panicking is C03's)
+    let (full, meta) = match (full, meta) {
+        (Ok(f), Ok(m)) => (f, m),
+        (Ok(f), Err(p)) => {
+            if f.has_output() {
+                ctx.violation(case, "metadata_equal", "metadata_only_reader_panics", format!("parse returns a recipe, parse_metadata panics: {} at {}", p.message, p.location));
+            }
+            return;
+        }
+        (Err(p), Ok(m)) => {
+            if m.has_output() {
+                ctx.violation(case, "metadata_equal", "full_reader_panics", format!("parse_metadata returns the metadata, parse panics: {} at {}", p.message, p.location));
+            }
+            return;
+        }
+        (Err(_), Err(_)) => {
+            ctx.count("panic_in_both(C03)");
+            return;
+        }
     };
     // the same comparison with a caller's validator that drops every key beginning with `_` (both entry points take options)
     {
